@@ -12,7 +12,8 @@ Definition drv (old new : option N) : sigm :=
 
 Definition pc_w : pcfg := {| p_dest := DWell; p_pi := 0; p_unc := [3] |}.
 
-Definition full_statement : Prop :=
+(* C31_full_statement *)
+Definition C31_full_statement : Prop :=
   forall pc h sched, bus_history (scfg pc) h = true ->
     let x := crun pc h sched in
     (c_ready x <> Some true -> forall p, cached x p = None) /\
@@ -34,7 +35,7 @@ Lemma owner_release_buffered_refuted :
   cached x 0 = Some 7 /\ spec_cache pc_w h_release 0 = Some 5.
 Proof. vm_compute. repeat split; reflexivity. Qed.
 
-Lemma full_statement_refuted : ~ full_statement.
+Lemma full_statement_refuted : ~ C31_full_statement.
 Proof.
   intro H. specialize (H pc_w h_release sched_release).
   destruct owner_release_buffered_refuted as (Hb & _ & Hc & Hr & Hv & Hs). cbv zeta in Hc, Hr, Hv, Hs.
